@@ -207,6 +207,7 @@ func runSysFault(x *X) {
 		waitQuiet()
 		if ws := simrt.FreeLockWaiters(); len(ws) > 0 && !wedged {
 			wedged = true
+			env.wedged = true
 			key := ws
 			if cyc := simrt.FreeLockCycle(); cyc != nil {
 				key = cyc
